@@ -53,17 +53,21 @@ META = {
 KEY = bytes(bytearray(range(32)))
 IV = bytes(bytearray(range(100, 116)))            # explicit IV of the writing policy
 IV2 = bytes(bytearray(range(200, 216)))           # explicit, different IV of a separate reading policy
-WITNESSES = ["Witness_BlockAlignedPaddingLikeTail", "Witness_NullInEncryptedColumn", "Witness_MixedLayoutTwoRows", "Witness_EmptyStringEncrypted",
+WITNESSES = ["Witness_MixedCaseEncryptedColumn", "Witness_BlockAlignedPaddingLikeTail", "Witness_NullInEncryptedColumn", "Witness_MixedLayoutTwoRows", "Witness_EmptyStringEncrypted",
              "Witness_SeparateReaderPolicy"]
 
 
 def runs(ctx):
     modes = {"same", "default_ivs", "explicit_ivs"}
-    base = {"MaxCols": 3, "MaxRows": 2, "BindModes": {"seq", "map"}, "MetaModes": {"inline", "prepared"}, "PolicyModes": modes}
+    base = {"MaxCols": 3, "MaxRows": 2, "BindModes": {"seq", "map"}, "MetaModes": {"inline", "prepared"}, "PolicyModes": modes,
+            "NameModes": {"lower"}}
+    # NameModes "mixed": keyspace / table / columns with case-sensitive (quoted) names, ks."Accounts"."Photo"
     if ctx.quick:
-        return [dict(base, MaxCells=4, FreeTypes=False, PVs={4})]
+        return [dict(base, MaxCells=4, FreeTypes=False, PVs={4}),
+                dict(base, MaxCells=4, FreeTypes=False, PVs={4}, NameModes={"mixed"}, PolicyModes={"same"})]
     return [dict(base, MaxCells=6, FreeTypes=False, PVs={4}),
-            dict(base, MaxCells=4, FreeTypes=True, PVs={3, 4, 5}, PolicyModes={"same", "explicit_ivs"})]
+            dict(base, MaxCells=4, FreeTypes=True, PVs={3, 4, 5}, PolicyModes={"same", "explicit_ivs"}),
+            dict(base, MaxCells=4, FreeTypes=False, PVs={4}, NameModes={"mixed"})]
 
 
 class Env:
@@ -89,8 +93,11 @@ class Env:
         finally:
             os.urandom = real
 
-    def layout(self, cols, pv, mode="same"):
-        key = (tuple((c["ty"], bool(c["enc"])) for c in cols), pv, mode)
+    def layout(self, cols, pv, mode="same", ids=None):
+        """ids: per column the (keyspace, table, column) names as the server reports them (Encryption.tla ColumnId)."""
+        ids = [tuple(i) for i in ids] if ids else [(B.KS, B.TABLE, B.col_name(i)) for i in range(1, len(cols) + 1)]
+        ks, table, names = ids[0][0], ids[0][1], [i[2] for i in ids]
+        key = (tuple((c["ty"], bool(c["enc"])) for c in cols), pv, mode, tuple(ids))
         if key in self.cache:
             return self.cache[key]
         # the policy that binds (writes) and the policy that decodes (reads): same keys, see Encryption.tla PolicyModes
@@ -98,17 +105,18 @@ class Env:
         reader = policy if mode == "same" else self.new_policy(None if mode == "default_ivs" else IV2)
         descs = []
         for i, c in enumerate(cols, 1):
-            d = self.policies.ColDesc(B.KS, B.TABLE, B.col_name(i))
+            d = self.policies.ColDesc(*ids[i - 1])            # the policy is configured with the exact names
             descs.append(d)
             if c["enc"]:
                 policy.add_column(d, KEY, c["ty"])
                 if reader is not policy:
                     reader.add_column(d, KEY, c["ty"])
         server_types = ["blob" if c["enc"] else c["ty"] for c in cols]            # the table stores ciphertext in a blob
-        columns = [(B.col_name(i), B.wire_type(t)) for i, t in enumerate(server_types, 1)]
-        prepared = B.make_prepared(server_types, [], False, pv, policy=policy, result_columns=columns)
+        columns = [(names[i - 1], B.wire_type(t)) for i, t in enumerate(server_types, 1)]
+        prepared = B.make_prepared(server_types, [], False, pv, policy=policy, result_columns=columns, ks=ks, table=table,
+                                   names=names)
         handler = type("verif-ProtocolHandler", (self.proto.ProtocolHandler,), {"column_encryption_policy": reader})
-        self.cache[key] = (policy, descs, prepared, handler, columns, reader)
+        self.cache[key] = (policy, descs, prepared, handler, columns, reader, ks, table, names)
         return self.cache[key]
 
 
@@ -122,7 +130,8 @@ def evaluate(env, case):
     cols, pv = case["cols"], case["pv"]
     obs = {"bound": [], "bind_error": None, "decoded": None, "decode_error": None}
     try:
-        policy, descs, prepared, handler, columns, reader = env.layout(cols, pv, case.get("pol", "same"))
+        policy, descs, prepared, handler, columns, reader, ks, table, names = env.layout(cols, pv, case.get("pol", "same"),
+                                                                                         case.get("ids"))
         obs["reader_iv"] = bytes(reader.iv).hex()
     except Exception as ex:              # noqa: a mutated driver may fail here
         obs["bind_error"] = "setup: %s: %s" % (type(ex).__name__, str(ex)[:200])
@@ -130,7 +139,7 @@ def evaluate(env, case):
     wire_rows = []
     for row in case["rows"]:
         vals = [py_cell(c["ty"], cell) for c, cell in zip(cols, row)]
-        args = vals if case["bind"] == "seq" else {B.col_name(i): v for i, v in enumerate(vals, 1)}
+        args = vals if case["bind"] == "seq" else {names[i - 1]: v for i, v in enumerate(vals, 1)}
         try:
             bound = q.BoundStatement(prepared).bind(args)
             cells = list(bound.values)
@@ -154,7 +163,7 @@ def evaluate(env, case):
         obs["bound"].append(proj)
         wire_rows.append([None if b is None else bytes(b) for b in cells])
     inline = case["meta"] == "inline"
-    body = B.wire.body_rows(columns, wire_rows, ks=B.KS, table=B.TABLE, no_metadata=not inline)
+    body = B.wire.body_rows(columns, wire_rows, ks=ks, table=table, no_metadata=not inline)
     try:
         msg = handler.decode_message(pv, {}, 1, 0, 0x08, body, None, None if inline else prepared.result_metadata)
         obs["decoded"] = [list(r) for r in msg.parsed_rows]
@@ -172,6 +181,14 @@ def expected(case, out):
 
 
 def compare(env, st):
+    """-> None, or (what, signature, replay); the signature names case-sensitive column names when the case has them."""
+    r = _compare(env, st)
+    if r and st["case"].get("names") == "mixed":
+        return (r[0], r[1] + ":case-sensitive-names", r[2])
+    return r
+
+
+def _compare(env, st):
     case, out = st["case"], st["out"]
     obs = evaluate(env, case)
     exp_bound, exp_rows = expected(case, out)
@@ -230,6 +247,8 @@ def witness_flags(case):
         "Witness_BlockAlignedPaddingLikeTail": any(
             c["enc"] and cell["k"] == "val" and c["ty"] != "int" and padding_like(cell["v"]["s"])
             for r in rows for c, cell in zip(cols, r)),
+        "Witness_MixedCaseEncryptedColumn": case.get("names") == "mixed" and len(rows) >= 1 and any(
+            c["enc"] and cell["k"] == "val" for c, cell in zip(cols, rows[0])),
         "Witness_SeparateReaderPolicy": case.get("pol", "same") != "same" and len(rows) >= 1,
         "Witness_EmptyStringEncrypted": any(c["enc"] and c["ty"] == "text" and cell["k"] == "val" and len(cell["v"]["s"]) == 0
                                             for r in rows for c, cell in zip(cols, r)),
@@ -268,7 +287,8 @@ def run(ctx):
     vectors = []
     all_runs = runs(ctx)
     for consts in all_runs:
-        label = "MaxCells=%d FreeTypes=%s PVs=%s" % (consts["MaxCells"], consts["FreeTypes"], sorted(consts["PVs"]))
+        label = "MaxCells=%d FreeTypes=%s PVs=%s names=%s" % (consts["MaxCells"], consts["FreeTypes"], sorted(consts["PVs"]),
+                                                              sorted(consts["NameModes"]))
         cfg = tlc.write_cfg(os.path.join(ctx.scratch, "enc.cfg"), constants=consts, invariants=["C39Invariants"], deadlock=False)
         res, states = B.enumerate_cases("Encryption", cfg, ctx.scratch, timeout=900 if ctx.quick else 3000)
         ctx.add_tlc(res, "exhaustive " + label)
@@ -295,19 +315,20 @@ def run(ctx):
                 if obs.get("body") and not obs["bind_error"]:
                     vectors.append({"cols": [[c["ty"], bool(c["enc"])] for c in case["cols"]], "pv": case["pv"],
                                     "inline": case["meta"] == "inline", "body": obs["body"], "reader_iv": obs["reader_iv"],
+                                    "ids": [list(i) for i in case["ids"]],
                                     "pol": case["pol"],
                                     "rows": expected(case, st["out"])[1]})
             if r:
                 by_signature[r[1]] = by_signature.get(r[1], 0) + 1
                 if by_signature[r[1]] == 1:
-                    ctx.violation("%s | columns %s bind=%s meta=%s policies=%s pv=%d rows=%r" % (
-                        r[0], [(c["ty"], "enc" if c["enc"] else "clear") for c in case["cols"]], case["bind"], case["meta"],
-                        case["pol"], case["pv"], expected(case, st["out"])[1]), replay=r[2], signature=r[1])
+                    ctx.violation("%s | columns %s (%s) bind=%s meta=%s policies=%s pv=%d rows=%r" % (
+                        r[0], [(c["ty"], "enc" if c["enc"] else "clear") for c in case["cols"]],
+                        ", ".join(".".join(i) for i in case["ids"]), case["bind"], case["meta"], case["pol"], case["pv"], expected(case, st["out"])[1]), replay=r[2], signature=r[1])
     if not all(reached.values()):
         raise tlc.MachineryError("vacuity: not reached: %s" % sorted(k for k, v in reached.items() if not v))
     if not ctx.quick:
         for w in WITNESSES:
-            wcfg = tlc.write_cfg(os.path.join(ctx.scratch, w + ".cfg"), constants=dict(all_runs[0], MaxCells=4, PVs={4}),
+            wcfg = tlc.write_cfg(os.path.join(ctx.scratch, w + ".cfg"), constants=dict(all_runs[0], MaxCells=4, PVs={4}, NameModes={"lower", "mixed"}),
                                  invariants=[w], deadlock=False)
             wres = tlc.check_model("Encryption", wcfg, ctx.scratch, timeout=600)
             if wres.invariant != w:
@@ -385,10 +406,11 @@ def _compiled_main(path, vec_file):
         policy = AES256ColumnEncryptionPolicy(iv=bytes.fromhex(v["reader_iv"]))       # the READING policy of the case
         md = []
         for i, (ty, enc) in enumerate(v["cols"], 1):
-            d = ColDesc(B.KS, B.TABLE, B.col_name(i))
+            ident = v["ids"][i - 1]
+            d = ColDesc(*ident)
             if enc:
                 policy.add_column(d, KEY, ty)
-            md.append(proto.ColumnMetadata(B.KS, B.TABLE, B.col_name(i), getattr(cqt, names["blob" if enc else ty])))
+            md.append(proto.ColumnMetadata(ident[0], ident[1], ident[2], getattr(cqt, names["blob" if enc else ty])))
         v["rows"] = [[uuid.UUID(c["uuid"]) if isinstance(c, dict) else c for c in row] for row in v["rows"]]
         null_enc = any(enc and cell is None for row in v["rows"] for (ty, enc), cell in zip(v["cols"], row))
         for hname, base in handlers.items():
